@@ -265,6 +265,21 @@ def check_sbs(d, meta, W, out, counters):
                         return 'number:sbs:%s:%s' % ('left' if side == 0 else 'right', 'first-row' if first else 'continuation-row'), \
                             'line number shown in the %s panel (%s of a %r line) is wrong' % ('left' if side == 0 else 'right',
                                                                                              'first row' if first else 'continuation row', k), exp, got
+                    # the other panel of the same row, when it holds no line of its own: it may show the number(s) of this
+                    # line where its format asks for them, on the first row - and nothing on a continuation row
+                    other = parsed[idx][1 - side]
+                    if other.kind is None and not other.code_cells and k != ' ':
+                        oorder = ro_ if side == 0 else lo_
+                        ogot = [sbs.field_number(x) for _, x in other.fields]
+                        oexp = [((onum if ph_ == 'nm' else nnum) if first else None) for ph_ in oorder]
+                        if first and len(ogot) == len(oexp) and all(a == b or (a is not None and b is not None and str(b).startswith(str(a)) and b >= 10 ** 6)
+                                                                   for a, b in zip(ogot, oexp)):
+                            ogot = oexp      # (a number wider than its field is cut by the panel: digits are a prefix)
+                        if len(ogot) == len(oexp) and ogot != oexp:
+                            return 'number:sbs:%s:empty-panel-beside-%s' % ('right' if side == 0 else 'left', 'first-row' if first else 'continuation-row'), \
+                                'the empty %s panel beside the %s of a %r line shows other numbers than that line has' % (
+                                    'right' if side == 0 else 'left', 'first row' if first else 'continuation row', k), oexp, ogot
+                        counters['empty_panel_fields_checked'] = counters.get('empty_panel_fields_checked', 0) + 1
                     if first:
                         counters['numbers_compared'] += 1
                         # tie the number to the line content
